@@ -57,6 +57,9 @@ func (r *refSession) receive(now time.Time, p *layers.BFD) {
 	if refDiscard(p) {
 		return
 	}
+	if r.state == layers.BFDStateAdminDown {
+		return // only reachable after a listed known finding re-synchronised the reference
+	}
 	r.deadline = now.Add(time.Duration(p.DetectMultiplier) *
 		max(r.rx, time.Duration(p.DesiredMinTxInterval)*time.Microsecond))
 	old := r.state
@@ -107,6 +110,7 @@ type party struct {
 	lastRecv time.Time
 	lastSend time.Time
 	gen      int
+	stuck    bool // known finding manifested: session is in the inescapable AdminDown state
 }
 
 type psender struct {
@@ -206,7 +210,10 @@ func (s *sim) forge(to int) *layers.BFD {
 	peer := s.ps[1-to]
 	me := s.ps[to]
 	p := &layers.BFD{Version: 1}
-	p.State = layers.BFDState(r.Choice("forge.state", 4))
+	// AdminDown only in 1 of 8 forged packets: while the AdminDown defect is a listed known finding
+	// it ends the useful part of a run
+	p.State = []layers.BFDState{layers.BFDStateDown, layers.BFDStateInit, layers.BFDStateUp, layers.BFDStateDown,
+		layers.BFDStateInit, layers.BFDStateUp, layers.BFDStateUp, layers.BFDStateAdminDown}[r.Choice("forge.state", 8)]
 	p.DetectMultiplier = layers.BFDDetectMultiplier(r.Range("forge.mult", 1, 5))
 	p.MyDiscriminator = peer.sess.LocalDiscriminator
 	p.YourDiscriminator = me.sess.LocalDiscriminator
@@ -377,6 +384,14 @@ func runC16Bubble(r *core.Run, clean bool) {
 					return false
 				}
 				sig := fmt.Sprintf("rfc5880:%s->%v", p.ref.lastEv, got)
+				if r.IsKnown(sig) && got == layers.BFDStateAdminDown {
+					// listed known finding: note it, re-synchronise the reference with the stuck
+					// implementation and go on (recovery of this session is no longer judged)
+					r.NoteKnown(sig)
+					p.stuck = true
+					p.ref.state = layers.BFDStateAdminDown
+					continue
+				}
 				r.Fail("rfc5880-conformance", sig, "t=%v session %s is %v but RFC 5880 6.8.6 reference is %v (last reference event: %s)",
 					s.rel(now), p.name, got, p.ref.state, p.ref.lastEv)
 				return false
@@ -493,7 +508,12 @@ func runC16Bubble(r *core.Run, clean bool) {
 				bothUpAt = time.Time{}
 				end = faultEnd.Add(tail)
 			}
-			if (bothUpAt.IsZero() || now.Sub(bothUpAt) < 0) && now.Sub(faultEnd) > bound {
+			if (s.ps[0].stuck || s.ps[1].stuck) && now.Sub(faultEnd) > bound {
+				// a listed known finding left a session in AdminDown for good: recovery of this run
+				// cannot be judged
+				break
+			}
+			if bothUpAt.IsZero() && now.Sub(faultEnd) > bound {
 				r.Fail("recover", fmt.Sprintf("recover:A=%v,B=%v", s.ps[0].sess.VerifLocalState(), s.ps[1].sess.VerifLocalState()),
 					"sessions not both Up %v after faults stopped (bound %v): A=%v B=%v", now.Sub(faultEnd), bound,
 					s.ps[0].sess.VerifLocalState(), s.ps[1].sess.VerifLocalState())
